@@ -1465,7 +1465,75 @@ impl<'a> Gen<'a> {
                 kind: FnKind::Function,
             })))
         };
-        match self.rd.below(5) {
+        match self.rd.below(7) {
+            5 | 6 => {
+                // a closure over a variable declared inside a try block (or in a callee of it) that
+                // escapes through an outer variable; the block is left by an exception, then the
+                // closure is used from the handler, after the statement, and after the function
+                self.label("closure_over_try_local");
+                let f = self.fresh("h");
+                let keep = "keep";
+                let thrower: Stmt = match self.rd.below(4) {
+                    0 => Stmt::new(StmtKind::Throw(Expr::str("thrown"))),
+                    1 => Stmt::expr(Expr::bin(BinOp::Add, Expr::Nil, Expr::Num(1.0))),
+                    2 => Stmt::expr(Expr::invoke(Expr::VecLit(vec![]), "pop", vec![])),
+                    _ => Stmt::new(StmtKind::If(Expr::var("p"), vec![Stmt::new(StmtKind::Throw(Expr::var("p")))], None)),
+                };
+                let l1 = self.next_lambda_name();
+                let l2 = self.next_lambda_name();
+                let mut try_body = vec![
+                    Stmt::var("a", Some(Expr::str("A"))),
+                    Stmt::var("b", Some(Expr::var("p"))),
+                ];
+                if self.rd.flag() {
+                    // an inner block: two scopes are discarded at once
+                    try_body.push(Stmt::new(StmtKind::Block(vec![
+                        Stmt::var("c", Some(Expr::str("C"))),
+                        Stmt::expr(Expr::assign_var(keep, Expr::Lambda(Rc::new(FnDef {
+                            name: RefCell::new(l1),
+                            params: vec![],
+                            body: Body::Expr(Box::new(Expr::VecLit(vec![Expr::var("a"), Expr::var("b"), Expr::var("c")]))),
+                            kind: FnKind::Lambda,
+                        })))),
+                        thrower,
+                    ])));
+                } else {
+                    try_body.push(Stmt::expr(Expr::assign_var(keep, Expr::Lambda(Rc::new(FnDef {
+                        name: RefCell::new(l1),
+                        params: vec![],
+                        body: Body::Expr(Box::new(Expr::VecLit(vec![Expr::var("a"), Expr::var("b")]))),
+                        kind: FnKind::Lambda,
+                    })))));
+                    try_body.push(thrower);
+                }
+                try_body.push(Stmt::print(Expr::str("not thrown")));
+                let handler = vec![
+                    Stmt::var("d", Some(Expr::str("D"))),
+                    Stmt::var("e2", Some(Expr::str("E"))),
+                    Stmt::print(Expr::callv(keep, vec![])),
+                ];
+                let with_finally = self.rd.chance(1, 3);
+                let body = vec![
+                    Stmt::var(keep, Some(Expr::Lambda(Rc::new(FnDef {
+                        name: RefCell::new(l2),
+                        params: vec![],
+                        body: Body::Expr(Box::new(Expr::str("no closure"))),
+                        kind: FnKind::Lambda,
+                    })))),
+                    Stmt::new(StmtKind::Try(
+                        try_body,
+                        Some(("ex".into(), handler)),
+                        if with_finally { Some(vec![Stmt::print(Expr::callv(keep, vec![]))]) } else { None },
+                    )),
+                    Stmt::var("z", Some(Expr::str("Z"))),
+                    Stmt::print(Expr::callv(keep, vec![])),
+                    ret(Expr::var(keep)),
+                ];
+                out.push(fdef(&f, vec!["p".into()], body));
+                self.declare(&f, Kind::Fn(1), false);
+                let arg = if self.rd.flag() { Expr::str("P") } else { Expr::False };
+                out.push(Stmt::print(Expr::call(Expr::callv(&f, vec![arg]), vec![])));
+            }
             0 => {
                 // two closures over one variable of the current scope
                 let v = if self.at_global() { self.fresh("g") } else { self.fresh("v") };
